@@ -417,7 +417,7 @@ func (c *Context) Rem(d, x, y *Decimal) (Condition, error) {
 	}
 	if y.Form == Infinite {
 		d.Set(x)
-		return 0, nil
+		return c.goError(c.round(d, d))
 	}
 
 	var res Condition
